@@ -44,6 +44,13 @@ func UploadLookupFile(ctx *fasthttp.RequestCtx) {
 		return
 	}
 
+	// The name becomes a file in the lookups directory, so it must not contain path elements
+	if fileName != filepath.Base(fileName) || fileName == "." || fileName == ".." {
+		log.Errorf("UploadLookupFile: Invalid file name: %q", fileName)
+		ctx.Error("Invalid file name", fasthttp.StatusBadRequest)
+		return
+	}
+
 	fileHeader, err := ctx.FormFile("file")
 	if err != nil {
 		log.Errorf("UploadLookupFile: Error retrieving the file: %v", err)
